@@ -23,6 +23,61 @@ Theorem C04_gen_core_types_refine_block_tlb :
      (s_Transaction, d_tlb_Transaction); (s_SignedMsgBody, d_wallet_SignedMsgBody)] = true.
 Proof. vm_compute. reflexivity. Qed.
 
+Local Open Scope string_scope.
+
+(* message envelopes, in/out message descriptors, accounts, block-level and configuration records *)
+Definition more_obligations : list (string * (schema * ty)) := [
+  ("tlb.IntermediateAddress", (s_IntermediateAddress, d_tlb_IntermediateAddress));
+  ("tlb.MsgMetadata", (s_MsgMetadata, d_tlb_MsgMetadata)); ("tlb.MsgEnvelope", (s_MsgEnvelope, d_tlb_MsgEnvelope));
+  ("tlb.InMsg", (s_InMsg, d_tlb_InMsg)); ("tlb.OutMsg", (s_OutMsg, d_tlb_OutMsg)); ("tlb.EnqueuedMsg", (s_EnqueuedMsg, d_tlb_EnqueuedMsg));
+  ("tlb.AccountState", (s_AccountState, d_tlb_AccountState)); ("tlb.AccountStorage", (s_AccountStorage, d_tlb_AccountStorage));
+  ("tlb.StorageExtraInfo", (s_StorageExtraInfo, d_tlb_StorageExtraInfo)); ("tlb.StorageInfo", (s_StorageInfo, d_tlb_StorageInfo));
+  ("tlb.ExistedAccount", (s_ExistedAccount, d_tlb_ExistedAccount)); ("tlb.Account", (s_Account, d_tlb_Account));
+  ("tlb.ShardAccount", (s_ShardAccount, d_tlb_ShardAccount)); ("tlb.DepthBalanceInfo", (s_DepthBalanceInfo, d_tlb_DepthBalanceInfo));
+  ("tlb.ExtBlkRef", (s_ExtBlkRef, d_tlb_ExtBlkRef)); ("tlb.BlkMasterInfo", (s_BlkMasterInfo, d_tlb_BlkMasterInfo));
+  ("tlb.ShardIdent", (s_ShardIdent, d_tlb_ShardIdent)); ("tlb.BlockIdExt", (s_BlockIdExt, d_tlb_BlockIdExt));
+  ("tlb.GlobalVersion", (s_GlobalVersion, d_tlb_GlobalVersion)); ("tlb.ImportFees", (s_ImportFees, d_tlb_ImportFees));
+  ("tlb.ShardFeeCreated", (s_ShardFeeCreated, d_tlb_ShardFeeCreated)); ("tlb.KeyExtBlkRef", (s_KeyExtBlkRef, d_tlb_KeyExtBlkRef));
+  ("tlb.KeyMaxLt", (s_KeyMaxLt, d_tlb_KeyMaxLt)); ("tlb.ValidatorInfo", (s_ValidatorInfo, d_tlb_ValidatorInfo));
+  ("tlb.ValidatorBaseInfo", (s_ValidatorBaseInfo, d_tlb_ValidatorBaseInfo)); ("tlb.Counters", (s_Counters, d_tlb_Counters));
+  ("tlb.CreatorStats", (s_CreatorStats, d_tlb_CreatorStats)); ("tlb.ProcessedUpto", (s_ProcessedUpto, d_tlb_ProcessedUpto));
+  ("tlb.IhrPendingSince", (s_IhrPendingSince, d_tlb_IhrPendingSince)); ("tlb.SigPubKey", (s_SigPubKey, d_tlb_SigPubKey));
+  ("tlb.CryptoSignatureSimple", (s_CryptoSignatureSimple, d_tlb_CryptoSignatureSimple));
+  ("tlb.ValidatorDescr", (s_ValidatorDescr, d_tlb_ValidatorDescr)); ("tlb.ValidatorTempKey", (s_ValidatorTempKey, d_tlb_ValidatorTempKey));
+  ("tlb.Certificate", (s_Certificate, d_tlb_Certificate)); ("tlb.StoragePrices", (s_StoragePrices, d_tlb_StoragePrices));
+  ("tlb.MsgForwardPrices", (s_MsgForwardPrices, d_tlb_MsgForwardPrices)); ("tlb.ParamLimits", (s_ParamLimits, d_tlb_ParamLimits));
+  ("tlb.BlockLimits", (s_BlockLimits, d_tlb_BlockLimits)); ("tlb.BlockCreateFees", (s_BlockCreateFees, d_tlb_BlockCreateFees));
+  ("tlb.ComplaintPricing", (s_ComplaintPricing, d_tlb_ComplaintPricing)); ("tlb.WorkchainFormat1", (s_WorkchainFormat1, d_tlb_WorkchainFormat1));
+  ("tlb.WorkchainFormat0", (s_WorkchainFormat0, d_tlb_WorkchainFormat0)); ("tlb.WcSplitMergeTimings", (s_WcSplitMergeTimings, d_tlb_WcSplitMergeTimings));
+  ("tlb.PrecompiledSmc", (s_PrecompiledSmc, d_tlb_PrecompiledSmc)); ("tlb.CatchainConfig", (s_CatchainConfig, d_tlb_CatchainConfig))].
+
+Theorem C04_gen_more_types_refine_block_tlb :
+  forallb (fun p => ok (fst (snd p)) (snd (snd p))) more_obligations = true.
+Proof. vm_compute. reflexivity. Qed.
+
+(** Where a symmetric edit (swapped fields, changed width or tag on both sides) would be
+    invisible: the struct / union types of package tlb that have a descriptor but NO schema
+    obligation.  The list is printed on every run and may not grow silently. *)
+Definition first_obligations : list string :=
+  ["tlb.MsgAddress"; "tlb.Grams"; "tlb.VarUInteger16"; "tlb.ExtraCurrencyCollection"; "tlb.CurrencyCollection";
+   "tlb.CommonMsgInfo"; "tlb.TickTock"; "tlb.SimpleLib"; "tlb.StateInit"; "tlb.Message"; "tlb.AccountStatus";
+   "tlb.AccStatusChange"; "tlb.ComputeSkipReason"; "tlb.HashUpdate"; "tlb.StorageUsed"; "tlb.TrStoragePhase";
+   "tlb.TrCreditPhase"; "tlb.TrComputePhase"; "tlb.TrActionPhase"; "tlb.TrBouncePhase"; "tlb.SplitMergeInfo";
+   "tlb.TransactionDescr"; "tlb.Transaction"; "wallet.SignedMsgBody"].
+Definition with_obligation : list string := first_obligations ++ map fst more_obligations.
+
+Definition is_compound (d : ty) : bool := match d with TStruct (_ :: _) | TSum _ => true | _ => false end.
+Definition in_tlb_package (nm : string) : bool := String.prefix "tlb." nm.
+
+Definition without_obligation : list string :=
+  map fst (filter (fun p => in_tlb_package (fst p) && is_compound (snd p)
+                            && negb (existsb (String.eqb (fst p)) with_obligation)) tlb_types).
+
+Theorem C04_gen_unpinned_types_bounded : Nat.leb (List.length without_obligation) 70 = true.
+Proof. vm_compute. reflexivity. Qed.
+
+Eval vm_compute in ("tlb struct/union types with a descriptor but no block.tlb obligation yet", without_obligation).
+
 (* the checker discriminates: swapped fields, a wrong width, a wrong tag and a
    missing reference are all rejected *)
 Theorem C04_gen_checker_rejects :
